@@ -902,3 +902,60 @@ theorem iamaxR_eq_lacon_imaxBy {R : Type} [Zero R] [Neg R] [LE R] [DecidableLE R
 
 
 end Slu.Cblas
+
+/-! ## The bundled reference BLAS — level 2: `[sdcz]trsv_` (partial) -/
+namespace Slu.Cblas
+open Finset Slu.Kernels
+section trsv
+variable {K : Type} [Field K] [Conj K] [Inhabited K]
+variable [BEq K]
+
+theorem trsv_upper_trans_eq_sweep (tr : Tr) (htr : tr ≠ Tr.N) (nounit : Bool) (n lda : Nat) (a x : Array K) (incx : Int) :
+    trsv true tr nounit n a lda x incx =
+      sweepUT (spos n incx) (fun i j => cj tr a[i + j * lda]!) (fun j => cj tr a[j + j * lda]!) nounit x n := by
+  have h : (tr == Tr.N) = false := by
+    cases tr
+    · exact absurd rfl htr
+    · rfl
+    · rfl
+  unfold trsv sweepUT
+  simp only [h, Bool.false_eq_true, if_false, if_true]
+
+/-- **trsv (partial: `uplo = U`, `trans = T` or `C`, both `diag`, every `n`, `lda`, nonzero `incx`).**
+The strided entries of the result solve the LOWER triangular system `op(A) r = x`
+(`op(A)(j,i) = [conj] A(i,j)`, diagonal replaced by one for `diag = U`), row by row; every other position
+of the array and its size are unchanged.
+Full goal (`trsv_spec`, not yet proved): the same for the three remaining branches —
+`uplo = L, trans = T/C` (the mirrored backward sweep, reference `bwdSub`), and `trans = N` with
+`uplo = U / L` (column sweeps with the `x_j = 0` skip, which is invisible in exact arithmetic). -/
+theorem trsv_spec_partial (tr : Tr) (htr : tr ≠ Tr.N) (nounit : Bool) (n lda : Nat) (a x : Array K) (incx : Int)
+    (hinc : incx ≠ 0) (hb : ∀ i, i < n → spos n incx i < x.size)
+    (hd : nounit = true → ∀ j, j < n → cj tr a[j + j * lda]! ≠ 0) :
+    (trsv true tr nounit n a lda x incx).size = x.size ∧
+    (∀ j, j < n →
+      (∑ i ∈ range j, cj tr a[i + j * lda]! * (trsv true tr nounit n a lda x incx)[spos n incx i]!) +
+        (if nounit then cj tr a[j + j * lda]! else 1) * (trsv true tr nounit n a lda x incx)[spos n incx j]! =
+      x[spos n incx j]!) ∧
+    (∀ p, (∀ i, i < n → spos n incx i ≠ p) → (trsv true tr nounit n a lda x incx)[p]! = x[p]!) := by
+  rw [trsv_upper_trans_eq_sweep tr htr]
+  obtain ⟨h1, h2, _, h4⟩ := sweepUT_spec n (spos n incx) (fun i j => cj tr a[i + j * lda]!)
+    (fun j => cj tr a[j + j * lda]!) nounit x (fun i j hi hj h => spos_inj n incx hinc i j hi hj h) hb n (le_refl _)
+  refine ⟨h1, ?_, h4⟩
+  intro j hj
+  have hdj : (if nounit then cj tr a[j + j * lda]! else 1) ≠ (0 : K) := by
+    cases hnu : nounit
+    · simp
+    · simpa using hd hnu j hj
+  have row := fwdSub_row (fun j i => cj tr a[i + j * lda]!) (fun j => if nounit then cj tr a[j + j * lda]! else 1)
+    (fun i => x[spos n incx i]!) n j hj hdj
+  rw [h2 j hj, Finset.sum_congr rfl (fun i hi => by rw [h2 i (by have := mem_range.mp hi; omega)])]
+  exact row
+
+end trsv
+
+/-- upper triangular `[[2,1],[0,4]]` (lda = 3), `A' r = x` with `incx = -1`: logical `x = (2, 9)` -/
+example : trsv true Tr.T true 2 (#[2, 0, 99, 1, 4, 99] : Array Rat) 3 #[9, 2] (-1) = #[2, 1] := by decide +kernel
+example := trsv_spec_partial Tr.T (by decide) true 2 3 (#[2, 0, 99, 1, 4, 99] : Array Rat) #[9, 2] (-1)
+  (by decide) (by decide) (by decide)
+
+end Slu.Cblas
